@@ -98,6 +98,7 @@ func checkC02(c *h.Check) {
 	specs = append(specs, rootNamedLibSpecs()...)
 	specs = append(specs, manyTwinsSpecs()...)
 	specs = append(specs, spellingSpecs()...)
+	specs = append(specs, taggedStarSpecs()...)
 	cases, results := runSpecs(c, specs, map[string]bool{"wiring": true})
 	stdCoverage(c, cases, results, "all DAGs on N labelled types (node i depends on a subset of lower-numbered nodes, last node is the result), function providers by default; deviations (bounded per N, see explorer): node source kind (struct pointer/value, field, pointer-to-field, binding, value, injector parameter), type shape (leaf, pointer, named int, interface, slice), lib-package placement, nested lib set, variadic parameter, error/cleanup mix, nesting depth of the set (0-2 extra levels), one named set per node (also declared pairwise in one var spec), a second injector over the same set objects declared before or after the first. Oracle: every provider argument / struct field / selected field / result carries the identity minted by the model's designated source in the same call; exactly the needed providers run, once. Distinct = distinct rendered source.")
 	c.Coverage["explorer"] = exp
@@ -257,6 +258,38 @@ func spellingSpecs() []specCase {
 				return &ir.Program{Root: p, Injectors: []*ir.Injector{inj}}
 			}
 			out = append(out, specCase{fmt.Sprintf("C02/spelling/%s/order=%d", pr.name, order), g})
+		}
+	}
+	return out
+}
+
+// taggedStarSpecs: wire.Struct(new(S), "*") over fields with every tag form; the prevented ones must keep their
+// zero value although a source of their type is in the build set and is used elsewhere.
+func taggedStarSpecs() []specCase {
+	var out []specCase
+	tags := []string{`wire:"-"`, `json:"-" wire:"-"`, `wire:"-" json:"x"`, `json:"-"`, `wire:"x"`, ``}
+	for ti := range tags {
+		for ptr := 0; ptr < 2; ptr++ {
+			ti, ptr := ti, ptr
+			g := &GraphSpec{}
+			g.custom = func(b *ir.Builder) *ir.Program {
+				p := b.Root
+				u, tr := b.Leaf(p, "User"), b.Leaf(p, "Tracer")
+				sess := b.Agg(p, "Session", &ir.Field{Name: "User", T: ir.Ptr(u)}, &ir.Field{Name: "Trace", T: ir.Ptr(tr), Tag: tags[ti]})
+				var st *ir.Type = sess
+				if ptr == 1 {
+					st = ir.Ptr(sess)
+				}
+				hd := b.Leaf(p, "Handler")
+				inj := &ir.Injector{Name: "Init", Out: hd, Items: []*ir.Item{
+					ir.FuncItem(&ir.Func{Pkg: p, Name: "NewUser", Out: ir.Ptr(u)}),
+					ir.FuncItem(&ir.Func{Pkg: p, Name: "NewTracer", Out: ir.Ptr(tr)}),
+					ir.StructItem(sess, "*"),
+					ir.FuncItem(&ir.Func{Pkg: p, Name: "NewHandler", Params: []*ir.Type{st, ir.Ptr(tr)}, Out: hd}),
+				}}
+				return &ir.Program{Root: p, Injectors: []*ir.Injector{inj}}
+			}
+			out = append(out, specCase{fmt.Sprintf("C02/tagged-star/tag=%d/ptr=%d", ti, ptr), g})
 		}
 	}
 	return out
